@@ -20,6 +20,7 @@ type Epoch struct {
 
 	mu       sync.Mutex
 	runID    string
+	hist     uint64 // source history the epoch's bytes come from (fixed once data exists)
 	hasRdb   bool
 	rdbLeft  int64
 	rdbSize  int64
@@ -28,8 +29,35 @@ type Epoch struct {
 	aof      []Piece
 }
 
-func (e *Epoch) SetRunID(id string) { e.mu.Lock(); e.runID = id; e.mu.Unlock() }
-func (e *Epoch) RunID() string      { e.mu.Lock(); defer e.mu.Unlock(); return e.runID }
+// SetRunID records the replication id the cache files the epoch under.  While nothing has been
+// written the id also names the source history; afterwards (a run-id switch that keeps the data)
+// the stream simply continues.
+func (e *Epoch) SetRunID(id string) {
+	e.mu.Lock()
+	e.runID = id
+	if !e.hasRdb && len(e.aof) == 0 {
+		e.hist = HistoryID(id)
+	}
+	e.mu.Unlock()
+}
+
+// AofID / RdbID are the source ids of the epoch's two streams.
+func (e *Epoch) AofID() uint64 { e.mu.Lock(); defer e.mu.Unlock(); return e.hist }
+func (e *Epoch) RdbID(left int64) uint64 {
+	e.mu.Lock()
+	defer e.mu.Unlock()
+	return SnapshotID(e.hist, left)
+}
+
+func (e *Epoch) streamID(s Stream) uint64 {
+	e.mu.Lock()
+	defer e.mu.Unlock()
+	if s == Rdb {
+		return SnapshotID(e.hist, e.rdbLeft)
+	}
+	return e.hist
+}
+func (e *Epoch) RunID() string { e.mu.Lock(); defer e.mu.Unlock(); return e.runID }
 
 // BeginRdb records a snapshot writer (left = replication offset the stream continues at).
 func (e *Epoch) BeginRdb(left, size int64, f *Feed) {
@@ -187,7 +215,7 @@ func (m *Model) NewEpoch(runID string) *Epoch {
 		c.SetRunID(runID)
 		return c
 	}
-	e := &Epoch{ID: len(m.epochs), runID: runID}
+	e := &Epoch{ID: len(m.epochs), runID: runID, hist: HistoryID(runID)}
 	m.epochs = append(m.epochs, e)
 	m.cur.Store(int64(e.ID))
 	return e
@@ -211,16 +239,17 @@ func (m *Model) Identify(window []byte) Origin {
 	eps := append([]*Epoch(nil), m.epochs...)
 	m.mu.Unlock()
 	try := func(e *Epoch, s Stream, from, to int64) {
+		id := e.streamID(s)
 		for off := from; off < to; off++ {
-			if m.PRF.Byte(e.ID, s, off) != window[0] {
+			if m.PRF.Byte(id, s, off) != window[0] {
 				continue
 			}
-			n := m.PRF.FirstMismatch(window, e.ID, s, off)
+			n := m.PRF.FirstMismatch(window, id, s, off)
 			if n < 0 {
 				n = len(window)
 			}
 			if n > best.Len && n >= 4 {
-				best = Origin{Found: true, Epoch: e.ID, Stream: s, Off: off, Len: n}
+				best = Origin{Found: true, Epoch: e.ID, RunID: e.RunID(), ID: id, Stream: s, Off: off, Len: n}
 			}
 		}
 	}
@@ -238,10 +267,25 @@ func (m *Model) Identify(window []byte) Origin {
 	return best
 }
 
+// writtenAny: has any epoch fed by the same source stream stored offset off?  (The same source
+// produces the same byte at the same offset in every epoch.)
+func (m *Model) writtenAny(id uint64, s Stream, off int64) bool {
+	m.mu.Lock()
+	eps := append([]*Epoch(nil), m.epochs...)
+	m.mu.Unlock()
+	for _, e := range eps {
+		if e.streamID(s) == id && e.written(s, off) {
+			return true
+		}
+	}
+	return false
+}
+
 // Mismatch describes reader output that no candidate epoch explains.
 type Mismatch struct {
-	Kind     string // foreign-epoch | wrong-offset | unwritten | unknown-bytes
+	Kind     string // foreign-history | wrong-offset | unwritten | unknown-bytes
 	Epoch    int    // the reader's epoch (last surviving candidate)
+	ID       uint64 // source id of the reader's stream
 	Stream   Stream
 	At       int64 // stream offset of the first wrong byte
 	Expected []byte
@@ -266,20 +310,21 @@ func (m *Model) Extend(mm *Mismatch, more []byte) {
 	}
 	mm.Got = w
 	mm.Expected = make([]byte, len(w))
-	m.PRF.Fill(mm.Expected, mm.Epoch, mm.Stream, mm.At)
+	m.PRF.Fill(mm.Expected, mm.ID, mm.Stream, mm.At)
 	mm.Origin = m.Identify(w)
 	switch {
 	case !mm.Origin.Found:
 		mm.Kind = "unknown-bytes"
-	case mm.Origin.Epoch != mm.Epoch:
-		mm.Kind = "foreign-epoch"
+	case mm.Origin.ID != mm.ID:
+		mm.Kind = "foreign-history"
 	default:
 		mm.Kind = "wrong-offset"
 	}
 }
 
 // ReaderCheck verifies the byte stream of one cache reader: byte i must be the source byte
-// (epoch, stream, start+i) of one fixed epoch among the candidates, and must have been written.
+// (source of the epoch, stream, start+i) of one fixed epoch among the candidates, and must have
+// been written.
 type ReaderCheck struct {
 	m      *Model
 	mu     sync.Mutex // cands
@@ -326,31 +371,33 @@ func (rc *ReaderCheck) Verify(p []byte) *Mismatch {
 	worstUnwritten := false
 	for _, id := range rc.cands {
 		e := rc.m.Epoch(id)
-		bad := rc.m.PRF.FirstMismatch(p, id, rc.Stream, base)
-		unwritten := false
 		if e == nil {
-			bad = 0
-		} else {
-			// every delivered byte must have been written; what an epoch holds of one stream
-			// is contiguous, so look for the first unwritten index by bisection
-			n := len(p)
-			if bad >= 0 {
-				n = bad
-			}
-			if n > 0 && !e.written(rc.Stream, base) {
-				bad, unwritten = 0, true
-			} else if n > 0 && !e.written(rc.Stream, base+int64(n-1)) {
-				lo, hi := 0, n-1 // written(lo), !written(hi)
-				for hi-lo > 1 {
-					mid := (lo + hi) / 2
-					if e.written(rc.Stream, base+int64(mid)) {
-						lo = mid
-					} else {
-						hi = mid
-					}
+			continue
+		}
+		sid := e.streamID(rc.Stream)
+		bad := rc.m.PRF.FirstMismatch(p, sid, rc.Stream, base)
+		unwritten := false
+		// every delivered byte must have been written (by this epoch, or by another epoch fed by
+		// the same source: same bytes); what is written of one stream is contiguous, so look for
+		// the first unwritten index by bisection
+		n := len(p)
+		if bad >= 0 {
+			n = bad
+		}
+		wr := func(i int) bool { return rc.m.writtenAny(sid, rc.Stream, base+int64(i)) }
+		if n > 0 && !wr(0) {
+			bad, unwritten = 0, true
+		} else if n > 0 && !wr(n-1) {
+			lo, hi := 0, n-1 // written(lo), !written(hi)
+			for hi-lo > 1 {
+				mid := (lo + hi) / 2
+				if wr(mid) {
+					lo = mid
+				} else {
+					hi = mid
 				}
-				bad, unwritten = hi, true
 			}
+			bad, unwritten = hi, true
 		}
 		if bad < 0 {
 			keep = append(keep, id)
@@ -374,15 +421,19 @@ func (rc *ReaderCheck) Verify(p []byte) *Mismatch {
 	}
 	got := append([]byte(nil), p[worstAt:end]...)
 	exp := make([]byte, len(got))
-	rc.m.PRF.Fill(exp, worstEp, rc.Stream, at)
-	mm := &Mismatch{Epoch: worstEp, Stream: rc.Stream, At: at, Expected: exp, Got: got, Origin: rc.m.Identify(got)}
+	var sid uint64
+	if e := rc.m.Epoch(worstEp); e != nil {
+		sid = e.streamID(rc.Stream)
+	}
+	rc.m.PRF.Fill(exp, sid, rc.Stream, at)
+	mm := &Mismatch{Epoch: worstEp, ID: sid, Stream: rc.Stream, At: at, Expected: exp, Got: got, Origin: rc.m.Identify(got)}
 	switch {
 	case worstUnwritten:
 		mm.Kind = "unwritten"
 	case !mm.Origin.Found:
 		mm.Kind = "unknown-bytes"
-	case mm.Origin.Epoch != worstEp:
-		mm.Kind = "foreign-epoch"
+	case mm.Origin.ID != sid:
+		mm.Kind = "foreign-history"
 	default:
 		mm.Kind = "wrong-offset"
 	}
